@@ -163,3 +163,39 @@ package storage
 //@   props C17
 //@   ensures result1 == nil ==> (fileOpen(result0) && fresh(result0))
 //@ end
+
+// ---------------------------------------------------------------------------------------
+// C17 / C05: the RAM file reader hands out the concatenation of the parts, for any sequence of buffer sizes.
+// plen(parts, k) is the ghost prefix sum of the first k parts' lengths; the reader's abstract position is
+// plen(parts, curPart) + curPos. Every Read advances the position by exactly the number of bytes returned,
+// fills the buffer unless the end is reached, reports EOF exactly when the position is the total length,
+// and its loop terminates.
+
+//@ ufun plen(parts []*partRAM, k int) int
+//@ axiom plen_zero forall_as(a, []*partRAM, plen(a, 0) == 0)
+//@ axiom plen_def forall_as(a, []*partRAM, forall(k, k >= 1 ==> plen(a, k) == plen(a, k - 1) + len(bytesof(&a[k - 1].buffer))))
+
+// fcat(parts, g): the byte at offset g of the concatenation of the parts
+//@ ufun fcat(parts []*partRAM, g int) uint8
+//@ axiom fcat_def forall_as(a, []*partRAM, forall(k, forall(g, (0 <= k && k < len(a) && plen(a, k) <= g && g < plen(a, k) + len(bytesof(&a[k].buffer))) ==> fcat(a, g) == bytesof(&a[k].buffer)[g - plen(a, k)])))
+
+//@ pred rpos(r *ramFileReader) int := plen(r.parts, r.curPart) + r.curPos
+//@ pred readerOK(r *ramFileReader) := 0 <= r.curPart && r.curPart <= len(r.parts) && r.curPos >= 0
+//@   && forall(i, (0 <= i && i < len(r.parts)) ==> r.parts[i] != nil)
+//@   && (r.curPart < len(r.parts) ==> (r.curPos < len(bytesof(&r.parts[r.curPart].buffer)) || r.curPos == 0))
+//@   && (r.curPart == len(r.parts) ==> r.curPos == 0)
+
+//@ func ramFileReader.Read
+//@   props C17 C05
+//@   requires readerOK(r)
+//@   requires forall(k, (0 <= k && k < len(r.parts)) ==> ref(p) != ref(bytesof(&r.parts[k].buffer)))
+//@   modifies r.curPart, r.curPos, p[*]
+//@   loop 1 invariant readerOK(r) && r.parts == old(r.parts) && lenp == len(p) && 0 <= n && n <= lenp && (n < lenp || n == 0)
+//@   loop 1 invariant rpos(r) == old(rpos(r)) + n
+//@   loop 1 invariant forall(j, (0 <= j && j < n) ==> p[j] == fcat(r.parts, old(rpos(r)) + j))
+//@   loop 1 decreases len(r.parts) - r.curPart
+//@   ensures readerOK(r) && 0 <= result0 && result0 <= len(p) && rpos(r) == old(rpos(r)) + result0
+//@   ensures result1 == nil ==> result0 == len(p)
+//@   ensures forall(j, (0 <= j && j < result0) ==> p[j] == fcat(r.parts, old(rpos(r)) + j))
+//@   ensures result1 != nil ==> (r.curPart == len(r.parts) && rpos(r) == plen(r.parts, len(r.parts)))
+//@ end
